@@ -43,10 +43,13 @@ type State struct {
 	heap     map[string]string
 	heap0    map[string]string
 	allocs   []string
+	top      string              // allocation boundary: every reference allocated so far is < top
+	top0     string              // its value at function entry
+	nonNil   map[*types.Var]bool // tree maps known to be non-nil (created by a literal / make, only index-assigned since)
 }
 
 func (s *State) clone() *State {
-	n := &State{
+	n := &State{top: s.top, top0: s.top0,
 		env: make(map[*types.Var]string, len(s.env)), pre: s.pre, ghosts: map[string]string{},
 		snaps: map[*types.Var]string{}, closures: map[*types.Var]*ast.FuncLit{}, heap: map[string]string{}, heap0: s.heap0,
 	}
@@ -70,6 +73,10 @@ func (s *State) clone() *State {
 	n.guards = append([]string(nil), s.guards...)
 	n.path = append([]string(nil), s.path...)
 	n.allocs = append([]string(nil), s.allocs...)
+	n.nonNil = map[*types.Var]bool{}
+	for k, v := range s.nonNil {
+		n.nonNil[k] = v
+	}
 	return n
 }
 
@@ -136,6 +143,7 @@ type Exec struct {
 	siteN    map[string]int
 	closureInfo map[*ast.FuncLit]*types.Info
 	callSites   []token.Pos
+	directAssigned map[*types.Var]bool
 }
 
 const maxPaths = 4000
@@ -590,7 +598,10 @@ func verifyFunc(w *World, fi *FuncInfo, sweep bool) (res *FuncResult) {
 	info := fi.Pkg.TypesInfo
 	e.numberCalls(fi.Decl, info)
 	st := &State{env: map[*types.Var]string{}, pre: map[string]string{}, ghosts: map[string]string{}, snaps: map[*types.Var]string{},
-		closures: map[*types.Var]*ast.FuncLit{}, heap: map[string]string{}, heap0: map[string]string{}}
+		closures: map[*types.Var]*ast.FuncLit{}, heap: map[string]string{}, heap0: map[string]string{}, nonNil: map[*types.Var]bool{}}
+	st.top = e.fresh(st, "allocTop0", "Int")
+	st.top0 = st.top
+	st.pc = append(st.pc, "(> "+st.top+" 0)")
 	sig := fi.Obj.Type().(*types.Signature)
 	bind := func(v *types.Var) {
 		if v.Name() == "_" || v.Name() == "" {
@@ -603,7 +614,7 @@ func verifyFunc(w *World, fi *FuncInfo, sweep bool) (res *FuncResult) {
 			st.pc = append(st.pc, inv)
 		}
 		if isPtrToStruct(v.Type()) {
-			st.pc = append(st.pc, "(and (>= "+t+" 0) (< "+t+" allocTop))")
+			st.pc = append(st.pc, "(and (>= "+t+" 0) (< "+t+" "+st.top+"))")
 		}
 	}
 	if sig.Recv() != nil {
@@ -644,6 +655,11 @@ func verifyFunc(w *World, fi *FuncInfo, sweep bool) (res *FuncResult) {
 			return
 		}
 		names := map[string]string{}
+		for i := 0; i < sig.Params().Len(); i++ {
+			if pv := sig.Params().At(i); pv.Name() != "" && pv.Name() != "_" {
+				names[pv.Name()+"@post"] = st.env[pv]
+			}
+		}
 		for i, rn := range c.Results {
 			if i < len(vals) {
 				names[rn] = vals[i]
